@@ -13,7 +13,7 @@ import (
 func (x *fnv) evalCall(s *State, call *ast.CallExpr) []Value {
 	res := x.evalCall0(s, call)
 	if x.fc != nil && len(x.fc.Ats) > 0 {
-		x.runAts(s, types.ExprString(call.Fun), call, true, res)
+		x.runAts(s, types.ExprString(call.Fun), call, true, res, nil)
 	}
 	return res
 }
@@ -80,7 +80,7 @@ func (x *fnv) evalCall0(s *State, call *ast.CallExpr) []Value {
 	}
 	args := x.evalArgs(s, call, sig)
 	name := types.ExprString(call.Fun)
-	x.runAts(s, name, call, false, nil)
+	x.runAts(s, name, call, false, nil, args)
 
 	if tgt != nil && tgt.obj != nil {
 		if res, ok := x.modelCall(s, tgt.obj, recv, args, call); ok {
@@ -362,8 +362,8 @@ func regionHasPrefix(name, prefix string) bool {
 func (x *fnv) havocTarget(s *State, tg modTarget, tag string) {
 	for _, rn := range x.regionsWithPrefix(s, tg.prefix) {
 		m := s.mem[rn]
-		match := tg.match
-		hm := x.c.Havoc(m, tag, func(ref, idx *Term) *Term { return x.c.Not(match(ref, idx)) })
+		rn, tg := rn, tg
+		hm := x.c.Havoc(m, tag, func(ref, idx *Term) *Term { return x.c.Not(x.matchIn(tg, rn, ref, idx)) })
 		x.pendingRaw = append(x.pendingRaw, hm.RawOf())
 		s.mem[rn] = hm
 	}
@@ -574,6 +574,7 @@ func (x *fnv) evalBuiltin(s *State, name string, call *ast.CallExpr) []Value {
 		t := x.typeOf(call.Args[0])
 		r := x.h.alloc(s, "new")
 		x.h.StorePtr(s, t, r, x.h.zeroValue(t))
+		x.initMutexes(s, t, r)
 		return one(Value{T: types.NewPointer(t), Term: r})
 	case "delete":
 		m := x.eval(s, call.Args[0])
@@ -744,4 +745,21 @@ func sortStrings(a []string) {
 			a[j], a[j-1] = a[j-1], a[j]
 		}
 	}
+}
+
+// ownerOf maps a cell reference of region rn to the object whose allocation time decides whether the cell
+// existed at some earlier point: lock bits are addressed by mutex address, owned by the enclosing object.
+func (x *fnv) ownerOf(rn string, ref *Term) *Term {
+	if rn == lockRegionName {
+		return x.c.App("muowner", SInt, ref)
+	}
+	return ref
+}
+
+// matchIn evaluates a modifies target on a cell of region rn.
+func (x *fnv) matchIn(tg modTarget, rn string, ref, idx *Term) *Term {
+	if tg.fresh {
+		return tg.match(x.ownerOf(rn, ref), idx)
+	}
+	return tg.match(ref, idx)
 }
